@@ -36,7 +36,7 @@ partial def expand (j : Json) : Json :=
   | x => x
 
 /-- `{"op":"verdict","schema":…,"doc":…,"cap":n}` →
-`{"add":b,"commit":b,"collects":b,"conforms":b,"within_cap":b,"size":n,"legacy_add":b,
+`{"add":b,"valid":b,"commit":b,"collects":b,"conforms":b,"within_cap":b,"size":n,"legacy_add":b,
 "legacy_commit":b}` — `legacy_*` = the validation before the repairs (documentation only) -/
 def handle (req : Json) : Except String Json := do
   let op ← getStr req "op"
@@ -47,7 +47,8 @@ def handle (req : Json) : Except String Json := do
     let cap := getNatD req "cap" (32 * 1024 * 1024)
     let sz := size (project s d)
     return Json.mkObj [
-      ("add", validateAdd blank s d),
+      ("add", validateAdd blank size cap s d),
+      ("valid", validateDoc blank s d),
       ("commit", collectOk blank size cap s d),
       ("collects", collectDoc s d),
       ("conforms", conforms blank s d),
